@@ -7,14 +7,16 @@
 int verif_exc;
 
 void h_bmp_save(void) {
-  size_t in_x, in_y, in_c, in_k;
+  uint8_t in_x, in_y, in_c;
+  size_t in_k;
   uint8_t in_v;
-  size_t in_w, in_h; /* for the replay: the requires clauses on g_fr / g_oidx tie them to the dimensions of the is_fresh image */
+  uint8_t in_w, in_h; /* narrow, see ppm_load.c; for the replay: the requires clauses on g_fr / g_oidx tie them to the dimensions of the is_fresh image */
   g_x = in_x; g_y = in_y; g_c = in_c;
   g_wk = in_k;
   g_pv = in_v;
-  g_fr = in_h - 1 - g_y;
-  g_oidx = (g_y * in_w + g_x) * C06_PB(C06_ALPHA) + g_c;
+  g_w = in_w; g_h = in_h;
+  g_fr = (size_t)in_h - 1 - g_y;
+  g_oidx = (g_y * (size_t)in_w + g_x) * C06_PB(C06_ALPHA) + g_c;
   const Image* self;
   Image_save_bmp(self);
   VERIF_REACH();
